@@ -317,14 +317,13 @@ Definition set_focus_complete (s : lb) (maxrow : Z) (fflag : bool) : result lb :
   | PSet cf old =>
       let s := set_pend s PNone in
       match nthz (items s) (focus s) with
-      | None =>
-          (* empty walker: position is None, set_focus(old) / the unpacking of middle raise *)
-          Err OtherError
+      | None => Ok s                           (* "new_focus_widget is None": do nothing *)
       | Some neww =>
           let position := focus s in
           if old =? position then Ok s else
           match nthz (items s) old with
-          | None => Err IndexError               (* self._body.set_focus(focus_pos) *)
+          | None => Ok s     (* self._body.set_focus(focus_pos) raised IndexError/KeyError: the old
+                                position was removed meanwhile, keep the current offset *)
           | Some _ =>
               let s := set_body_focus s old in
               match visible (items s) old (off s) (inum s) (iden s) maxrow fflag with
